@@ -52,6 +52,8 @@ fn check_value(sig: &str, got: f64, f: &v1::Function, state: &v1::State, regime:
     Ok(())
 }
 
+const HUGE: [usize; 2] = [33_000, 70_000];
+
 impl C01 {
     /// functions well beyond the usual handful of terms (20..80 raw terms over as many ids, non-zero constant):
     /// implementations may switch algorithm with size (blocked / pairwise summation, pre-sized tables)
@@ -169,6 +171,8 @@ impl Property for C01 {
             "mode=big-derived",
             "terms>32",
             "terms>=256",
+            "one-sample-lacks-a-variable",
+            "sweep=many-variables",
         ]
         .iter()
         .map(|s| s.to_string())
@@ -182,6 +186,67 @@ impl Property for C01 {
     }
     fn tape_max(&self) -> usize {
         448
+    }
+    fn sweep_len(&self, _tier: Tier) -> usize {
+        HUGE.len() * 3
+    }
+    fn sweep_description(&self) -> Option<String> {
+        Some("functions over 33 000 and 70 000 distinct variables (beyond the 16-bit counts) as linear, quadratic and polynomial message, through evaluate and evaluate_samples (three samples)".into())
+    }
+    fn sweep_case(&self, _tier: Tier, i: usize, ctx: &mut Ctx) -> PResult {
+        let n = HUGE[i / 3] as u64;
+        let variant = (i % 3) as u8;
+        ctx.label("sweep=many-variables");
+        ctx.nontrivial();
+        ctx.fp_dbg(&("many-variables", n, variant));
+        ctx.sample_with(|| json!({"sweep": "many variables", "variables": n, "variant": variant}));
+        let seed = 5 + n;
+        let mut terms: Vec<(Vec<u64>, f64)> = (0..n).map(|k| (vec![k * 2 + 1], derived_coeff(seed, k))).collect();
+        terms.push((vec![], 0.75));
+        if variant >= 1 {
+            // a few products of far-apart variables
+            for k in 0..8u64 {
+                terms.push((vec![k * 2 + 1, (n - 1 - k) * 2 + 1], derived_coeff(seed ^ 9, k)));
+            }
+        }
+        let cfg = FuncCfg { force_variant: variant + 2, unnormalised: false, ..FuncCfg::default() };
+        let f = render(&mut Tape::new(&[]), &terms, &cfg, &mut Ctx::new(ctx.tier, false));
+        let used = syntactic_ids(&f);
+        let mut samples = v1::Samples::default();
+        for s in 0..3u64 {
+            let mut st = v1::State::default();
+            for id in &used {
+                st.entries.insert(*id, derived_value(seed + s, *id));
+            }
+            if s == 0 {
+                let (v, got_ids) = match f.evaluate(&st) {
+                    Ok(x) => x,
+                    Err(e) => return fail("C01/many-variables/err", format!("evaluate failed on a total state over {n} variables: {e}")),
+                };
+                check_value("many-variables", v, &f, &st, Regime::Dyadic, ctx).map_err(|mut e| {
+                    e.message.truncate(400);
+                    e
+                })?;
+                if got_ids != used {
+                    return fail("C01/many-variables/id-set", format!("returned id set has {} ids, the message mentions {}", got_ids.len(), used.len()));
+                }
+            }
+            samples.entries.push(crate::mk::samples_entry(st, vec![10 + s]));
+        }
+        let (sv, _) = match f.evaluate_samples(&samples) {
+            Ok(x) => x,
+            Err(e) => return fail("C01/many-variables/samples-err", format!("evaluate_samples failed over {n} variables: {e}")),
+        };
+        for e in &sv.entries {
+            for id in &e.ids {
+                let st = samples.entries.iter().find(|x| x.ids.contains(id)).and_then(|x| x.state.as_ref()).unwrap();
+                check_value("many-variables/samples", e.value, &f, st, Regime::Dyadic, ctx).map_err(|mut er| {
+                    er.message.truncate(400);
+                    er
+                })?;
+            }
+        }
+        Ok(())
     }
     fn assumptions(&self) -> Vec<String> {
         vec![
@@ -293,6 +358,7 @@ impl Property for C01 {
                 ctx.label("mode=samples");
                 // 1..4 states under arbitrary sample ids, grouped arbitrarily
                 let n = 1 + t.choice(4);
+                let incomplete = t.p(40);
                 let mut samples = v1::Samples::default();
                 let mut expect: Vec<(u64, v1::State)> = vec![];
                 let mut next_id = *t.pick(&[0u64, 1, 7, 1 << 40]);
@@ -322,6 +388,24 @@ impl Property for C01 {
                 }
                 if n >= 2 && raw.len() >= 2 {
                     ctx.nontrivial();
+                }
+                // one sample (not all) lacks a variable of the function: the call must fail, whatever the others assign
+                if incomplete && n >= 2 && !used.is_empty() {
+                    let victim = *used.iter().nth(t.choice(used.len())).unwrap();
+                    let k = t.choice(samples.entries.len());
+                    let others_have_it = samples.entries.iter().enumerate().any(|(i, e)| i != k && e.state.as_ref().map(|s| s.entries.contains_key(&victim)).unwrap_or(false));
+                    if others_have_it {
+                        samples.entries[k].state.as_mut().unwrap().entries.remove(&victim);
+                        ctx.label("one-sample-lacks-a-variable");
+                        ctx.nontrivial();
+                        ctx.fp(&victim.to_le_bytes());
+                        ctx.fp(&[k as u8, 0xEE]);
+                        ctx.sample_with(|| json!({"mode":"evaluate_samples, one incomplete sample","function":fn_json(&f),"samples":format!("{:?}",samples)}));
+                        return match f.evaluate_samples(&samples) {
+                            Err(_) => Ok(()),
+                            Ok((sv, _)) => fail("C01/samples/missing-var-accepted", format!("evaluate_samples returned {sv:?} although the state of entry {k} lacks id {victim}, which occurs in {f:?}; samples {samples:?}")),
+                        };
+                    }
                 }
                 for e in &samples.entries {
                     ctx.fp_state(e.state.as_ref().unwrap());
